@@ -73,6 +73,16 @@ def r1_r4(run: Run, rt):
                 run.bad('C10.R1', construct, f'escapes:{r.exc}',
                         f'comparing {ka} with {kb} lets {r.exc} escape from the coercion ladder', loc=loc)
                 continue
+            # a failed rung must not leave one operand converted: int() / float() of the right operand followed by a failing
+            # conversion of the left one hands (original left, converted right) to the later rungs
+            for tr in ev.trace:
+                if tr[0] == 'leak' and tr[2].origin in ('L', 'R') and tr[2].kind in ('blank', 'str', 'bool') and \
+                        tr[3].kind in ('int', 'float'):
+                    run.bad('C10.R1', construct, 'partial-coercion-leaks',
+                            f'comparing {ka} with {kb}: the attempt that fails with {tr[4]} has already re-bound `{tr[1]}` from '
+                            f'{tr[2]!r} to {tr[3]!r}; the later attempts compare the converted operand with the unconverted other '
+                            f'one (a blank turned into the number 0 no longer equals the empty text)', loc=loc)
+                    break
             if len(rec) != 1:
                 # several calls are fine when earlier ones raised inside _by_operator; our hook never raises
                 pass
